@@ -65,6 +65,7 @@ Run "garble map" with the same garble flags used to build, since flags such as
 	// We don't run a real build, just "go list" to fill sharedCache.ListedPackages.
 	_, err := toolexecCmd("list", append(flags, args...))
 	defer os.RemoveAll(os.Getenv("GARBLE_SHARED"))
+	defer verifEvent("shared-remove", "dir", os.Getenv("GARBLE_SHARED"), "command", "map")
 	if err != nil {
 		return err
 	}
